@@ -88,3 +88,29 @@ Proof.
   destruct example_hypotheses as [_ HOK]. destruct example_image_hypotheses as (V & N & _).
   exact (same_patched_bytes enc_ex 2 1 [0; 4096] 8 example_program HE HOK V N ex_direct_no_misfit ex_serialized_no_misfit ex_direct_nowrap k Hk).
 Qed.
+
+(* ------------------------------------------------------------------ completeness: the checker for "no delta refused for its range" is a DECISION procedure *)
+Lemma misfit_atb_complete : forall s o, no_misfit_at s o -> misfit_atb s o = true.
+Proof.
+  intros s o H. destruct o; try reflexivity. cbn in *.
+  destruct (nth_error (labels s) l) as [[[ks lo]|]|] eqn:A; try reflexivity.
+  destruct (nth_error (labels s) b) as [[[ks' bo]|]|] eqn:B; try reflexivity.
+  destruct (Nat.eqb ks ks') eqn:E; [|reflexivity]. apply Nat.eqb_eq in E. subst ks'.
+  destruct (size_ok size) eqn:Z1; [|reflexivity]. cbn [andb]. exact (H ks lo bo eq_refl eq_refl eq_refl).
+Qed.
+
+Lemma no_misfitb_complete : forall t s, no_misfit s t -> no_misfitb s t = true.
+Proof.
+  induction t as [|x t IH]; intros s H; [reflexivity|]. cbn [no_misfitb]. apply andb_true_intro. split.
+  - apply misfit_atb_complete. exact (H [] x t eq_refl).
+  - apply IH. intros t1 y t2 E. specialize (H (x :: t1) y t2 ltac:(rewrite E; reflexivity)).
+    cbn [expand flat_map] in H. rewrite run_app in H. exact H.
+Qed.
+
+Theorem no_misfitb_iff : forall t s, no_misfitb s t = true <-> no_misfit s t.
+Proof. intros; split; [apply no_misfitb_sound|apply no_misfitb_complete]. Qed.
+
+(* both answers occur: the pair of AsmOrderAny.misfit_matters *)
+Example no_misfitb_decides :
+  no_misfitb (LabelsModel.run init (prelude 2 1)) mis_before = true /\ no_misfitb (LabelsModel.run init (prelude 2 1)) mis_after = false.
+Proof. split; vm_compute; reflexivity. Qed.
